@@ -9,6 +9,7 @@ import (
 	"fmt"
 	"io"
 	"log"
+	"net"
 	"net/http"
 	"sort"
 	"strconv"
@@ -21,9 +22,11 @@ import (
 	"github.com/fiorix/go-diameter/diam/dict"
 	"github.com/gin-gonic/gin"
 	"github.com/h2non/gock"
+	"github.com/jlaffaye/ftp"
 	"github.com/sirupsen/logrus"
 
 	chf_context "github.com/free5gc/chf/internal/context"
+	"github.com/free5gc/chf/internal/cgf"
 	"github.com/free5gc/chf/internal/logger"
 	"github.com/free5gc/chf/internal/sbi"
 	"github.com/free5gc/chf/internal/sbi/consumer"
@@ -74,6 +77,7 @@ type Notification struct {
 // stub DB, simulated network and disk, notification sink.
 type World struct {
 	Net    *simnet.Net
+	FTP    *FTPServer // billing domain (nil unless Cfg.Cgf)
 	Router *gin.Engine
 	cancel context.CancelFunc
 	wg     sync.WaitGroup
@@ -220,6 +224,15 @@ func Boot(sc *Scenario) (*World, error) {
 	diam.SimLockWait = rt.LockWait
 	diam.SimBarrier = rt.Barrier
 	diam.SimRand = w.nextID
+	ftp.SimDial = func(network, address string, _ time.Duration) (net.Conn, error) { return w.Net.Dial(network, address) }
+	cgf.VerifDisable()
+	if rc.Cgf {
+		var err error
+		if w.FTP, err = startFTPServer(w.Net, rc.CgfIdleNs); err != nil {
+			return nil, err
+		}
+		cgf.VerifEnable(cgfCtrlAddr)
+	}
 
 	mongoapi.SimHook = nil
 	if rc.DBDelayMaxNs > 0 {
